@@ -99,7 +99,7 @@ def run(ctx) -> None:
                     while isinstance(e, ast.Subscript):
                         path.append(const_str(e.slice))
                         e = e.value
-                    if unparse(e) == "raw_full_cfg" and all(path):
+                    if unparse(e) in _toml_doc_vars(fn) and all(path):
                         out.add(".".join(reversed(path)))
         return out
     cfg_whole = whole_section_assigns(readers["cfg"], None)
@@ -256,3 +256,9 @@ def run(ctx) -> None:
                   "config._parse_cfg_file_patterns: lines of a file_patterns value are selected by position",
                   f"`{txt[:120]}`: with `{unparse(positional[0]) if positional else ''}` a pattern written on the key line (`README.md = version {{version}}`) is dropped, "
                   f"while the same entry in a TOML config is honoured", loc=fpf.loc(y), witness={"setup.cfg": "[bumpver:file_patterns]\nREADME.md = version {version}"})
+
+
+def _toml_doc_vars(fn) -> T.Set[str]:
+    """Locals bound to the parsed TOML document (`x = toml.load(...)`); `raw_full_cfg` on the pinned tree."""
+    out = {unparse(tg) for _st, tg, v in shapes.iter_assigns(fn.node) if isinstance(v, ast.Call) and unparse(v.func) in ("toml.load", "toml.loads", "tomllib.load", "tomllib.loads")}
+    return out or {"raw_full_cfg"}
